@@ -174,7 +174,13 @@ class Interp(ExprMixin, WhileMixin):
                 if self._cur_args is None:
                     self._cur_args = [a for a in args]
                 try:
-                    v = self.call_function(module, fn, args, kwargs, cls, toplevel=True)
+                    decos = [ast.unparse(d) for d in getattr(fn, "decorator_list", [])]
+                    if getattr(self, "entry_through_decorators", False) and not any(d.startswith("_(") for d in decos) and \
+                            any(d not in ("staticmethod", "classmethod", "property") and not d.endswith((".setter", "abstractmethod")) for d in decos):
+                        # callers reach the function through its decorators (in-repo wrappers are evaluated)
+                        v = self.call_decorated(module, fn, args, kwargs, cls)
+                    else:
+                        v = self.call_function(module, fn, args, kwargs, cls, toplevel=True)
                     res = PathResult("return", v, list(self.conds), list(self.events))
                 except _Raise as r:
                     res = PathResult("raise", r.exc, list(self.conds), list(self.events), r.where)
